@@ -201,6 +201,7 @@ def _subproc(job):
     w = _world(job["tmp"], cfg["modules"])
     ops = all_ops(cfg)
     n = 0
+    diverged = []
 
     def both(op, start):
         nonlocal n
@@ -216,19 +217,28 @@ def _subproc(job):
         k_in = w.key()
         n += 1
         if k_sub != k_in or not _cmp(sub, inp):
-            raise common.HarnessError(
-                f"C18: in-process run diverges from a real process for {op_desc(op)} from state {w.key(start)!r}: "
-                f"process -> {sub['loaded']} / {k_sub!r}; in-process -> {inp['loaded']} / {k_in!r}"
+            # The same run, from the identical files, gives a different result when it is made in
+            # an interpreter that has made other hooked runs before than in a fresh interpreter:
+            # the hook machinery keeps process-wide state across runs.  Re-importing under
+            # another hook configuration within one process is a legitimate history, so this is
+            # reported as a violation of C18 (one key), not as a harness error.
+            diverged.append(
+                dict(
+                    op=op,
+                    state=w.key(start),
+                    process=dict(loaded=sub["loaded"], outcome=sub["outcome"], key=k_sub),
+                    in_process=dict(loaded=inp["loaded"], outcome=inp["outcome"], key=k_in),
+                )
             )
         return s_sub, sub
 
     s1, _ = both(job["op1"], w.initial())
     k1 = w.key(s1)
-    if k1 != job["key1"]:
+    if k1 != job["key1"] and not diverged:
         raise common.HarnessError(f"C18: real process reached {k1!r} after {op_desc(job['op1'])}, the search had {job['key1']!r}")
     for op2 in ops:
         both(op2, s1)
-    return dict(validated=n)
+    return dict(validated=n, diverged=diverged[:5], n_diverged=len(diverged), op1=job["op1"])
 
 
 # ------------------------------------------------------------------------- driver
@@ -356,6 +366,9 @@ def _run(ctx, tmp, pool, sw):
         rot = ctx.seed % len(jobs)
         outs = pool.map(_expand, jobs[rot:] + jobs[:rot])
         v = sum(o["validated"] for o in outs)
+        div = [(o["op1"], d) for o in outs for d in o.get("diverged", [])]
+        n_div = sum(o.get("n_diverged", 0) for o in outs)
+        leaks = []
         # violating histories: confirm in-process twice and as real processes
         for cls in sorted(r["classes"], key=lambda c: r["classes"][c]["rank"]):
             c = r["classes"][cls]
@@ -365,6 +378,9 @@ def _run(ctx, tmp, pool, sw):
             pp, _ = _history_as_processes(w, cfg, hist)
             v += sum(1 for op in hist if op[0] == "run")
             if not all(any(x[0] == cls for x in p) for p in (p1, p2, pp)):
+                if n_div or any(any(x[0] == cls for x in p) for p in (p1, p2)):
+                    leaks.append((cls, hist, c["detail"]))
+                    continue
                 raise common.HarnessError(f"C18: violation {cls} did not reproduce (in-process {p1} / {p2}, real processes {pp}) for {hist}")
             key = f"C18:{cls}:{'>'.join(op_desc(o) for o in hist)}"
             if key not in instances:
@@ -374,6 +390,21 @@ def _run(ctx, tmp, pool, sw):
                         key=key,
                         what=f"[{cfg['name']}] history {' ; '.join(op_desc(o) for o in hist)}: {c['detail']} (reproduced in real separate processes)",
                         replay=dict(modules=cfg["modules"], history=hist, expect=cls),
+                    )
+                )
+        if n_div or leaks:
+            key = "C18:process-state-leak"
+            if key not in instances:
+                instances[key] = cfg["name"]
+                op1, d0 = div[0] if div else (None, None)
+                violations.append(
+                    Violation(
+                        key=key,
+                        what=f"[{cfg['name']}] {n_div} run(s) gave a different result in an interpreter that had made other hooked runs before than in a fresh interpreter started on the identical files"
+                        + (f" (first: after {op_desc(op1)}, run {op_desc(d0['op'])} from cache state {d0['state']!r}: fresh process -> {d0['process']}, same process -> {d0['in_process']})" if d0 else "")
+                        + (f"; {len(leaks)} oracle violation(s) seen only with that process history, first: {leaks[0][0]} for {[op_desc(o) for o in leaks[0][1]]}: {leaks[0][2]}" if leaks else "")
+                        + ": the hook keeps process-wide state across runs",
+                        replay=dict(modules=cfg["modules"], history=[op1, d0["op"]] if d0 else leaks[0][1], expect="process-state-leak", in_one_process=True),
                     )
                 )
         validated += v
@@ -441,6 +472,9 @@ def replay(rep):
         pi, key_i = _history_in_process(w, cfg, rep["history"])
         exp = rep.get("expect")
         hit = [p for p in pp if exp is None or p[0] == exp]
+        if exp == "process-state-leak":
+            # violated iff the in-process execution of the history differs from separate processes
+            hit = [1] if (key_p != key_i or [p[0] for p in pp] != [p[0] for p in pi]) else []
         return dict(
             violates=bool(hit),
             history=[op_desc(o) for o in rep["history"]],
